@@ -381,6 +381,14 @@ pub fn normalise(b: &Built, res: &RunResult) -> (Vec<String>, Vec<String>) {
             let who: Vec<i64> = res.stuck.iter().map(|s| s.0 as i64 + 1).collect();
             tail.push(Obj::new("deadlock").int("t", 0).int("d", 0).ints("stuck", &who).int("hdepth", res.stuck.iter().map(|s| s.1 as i64).max().unwrap_or(0)).done())
         }
+        Outcome::Lasso(why) => tail.push(
+            Obj::new("livelock")
+                .int("t", 0)
+                .int("d", 0)
+                .int("hdepth", res.stuck.iter().map(|s| s.1 as i64).max().unwrap_or(0))
+                .str("why", why)
+                .done(),
+        ),
         Outcome::Livelock | Outcome::StepLimit => {
             tail.push(Obj::new("livelock").int("t", 0).int("d", 0).int("hdepth", res.stuck.iter().map(|s| s.1 as i64).max().unwrap_or(0)).done())
         }
@@ -514,6 +522,7 @@ pub fn main(args: &Args) -> i32 {
         cfg.max_nested = args.num("depth", 1);
         cfg.deliver_on = (0..scn.threads.len()).collect();
         cfg.deliver_at_start = false;
+        cfg.post_points = args.flag("post-points");
         cfg.handler_atomic = args.flag("handler-atomic");
         cfg.preemption_bound = args.get("preempt").map(|s| s.parse().unwrap());
         let Built { world, bodies, locs, pre, d_data, f_data, init_ptrs } = b;
